@@ -96,6 +96,9 @@ type k4interp struct {
 	opaqueCall func(args []k4val) (string, bool)
 	// stores performed on non-local memory, in order (for rules that inspect effects)
 	effects []string
+	stack   []*ssa.Function // functions being interpreted (a new helper that recurses is not unfolded)
+	// answer (optional) supplies values for opaque queries the model does not list
+	answer func(key string, isBool bool) (k4val, bool)
 }
 
 type k4frame struct {
@@ -123,7 +126,8 @@ func (it *k4interp) call(f *ssa.Function, args []k4val, fvs []k4val) ([]k4val, e
 		return nil, fmt.Errorf("inlining too deep at %s", FuncName(f))
 	}
 	it.depth++
-	defer func() { it.depth-- }()
+	it.stack = append(it.stack, f)
+	defer func() { it.depth--; it.stack = it.stack[:len(it.stack)-1] }()
 	fr := it.newFrame(f, args, fvs)
 	for {
 		b := fr.cur
@@ -368,6 +372,11 @@ func (it *k4interp) lookup(key string, t types.Type) (k4val, error) {
 		}
 		if isNumeric(t) {
 			return k4val{kind: 2, f: 0}, nil
+		}
+	}
+	if it.answer != nil && (isBoolT(t) || isNumeric(t)) {
+		if v, ok := it.answer(key, isBoolT(t)); ok {
+			return v, nil
 		}
 	}
 	if isBoolT(t) {
@@ -963,7 +972,7 @@ func (it *k4interp) eval1(fr *k4frame, v ssa.Value) (k4val, error) {
 				return r, err
 			}
 		}
-		if cal != nil && cal.Blocks != nil && it.inline != nil && it.inline(cal) {
+		if cal != nil && cal.Blocks != nil && ((it.inline != nil && it.inline(cal)) || (isNewHelper(cal) && !it.onStack(cal))) {
 			var args []k4val
 			for _, a := range x.Call.Args {
 				av, err := it.eval(fr, a)
@@ -1258,3 +1267,12 @@ func (it *k4interp) sliceContents(fr *k4frame, x *ssa.Slice) (string, bool) {
 }
 
 var boolT types.Type = types.Typ[types.Bool]
+
+func (it *k4interp) onStack(f *ssa.Function) bool {
+	for _, g := range it.stack {
+		if g == f {
+			return true
+		}
+	}
+	return false
+}
